@@ -105,7 +105,7 @@ def run(ctx: Ctx):
                 "real chain has >= 2 members that share or cross labels before resolution (a conflict exists)")
     ctx.assumptions = ["chain order is taken from the real chainer (logged choice); C14 decides the chainer",
                        "integer bp coordinates; scores scaled to integers (dp in {0.5,1,2})"]
-    n = 3000 if quick else 60000
+    n = 8000 if quick else 150000
     records = gen.parallel(segment_lists, ctx.seed * 6007 + 15, n, chunk=250)
     for rec in records:
         ch = [c for c in rec["chain"] if rec["ins"][c - 1]["pos"]]
